@@ -51,6 +51,7 @@ type Profile struct {
 	CrashP       float64  // probability that the node crashes between executing and committing a block (and re-executes it after the restart)
 	ByzPlainP    float64  // probability that a byzantine packet names a receiver other than the orbiter account
 	BigPassP     float64  // probability of a passthrough payload of 15000-23000 bytes
+	ModDepositP  float64  // probability that a deposit goes to the address of a bridge's module account instead of the orbiter's
 	SimP         float64  // probability that a block's transactions are first simulated on the node (gas estimation; discarded)
 	GhostTokenP  float64  // per step: probability of starting the "token created only in a simulation" scenario
 	InjectP      float64  // mode-B runs: probability that a lone delivery gets an injected downstream failure
@@ -1323,6 +1324,10 @@ func (g *genState) genDust(s *Sim) Op {
 	}
 	op.Denom = []string{DenomUSDC, DenomUSDC, DenomOther, DenomStake}[r.Intn(4)]
 	op.Amt = []string{"1", "7", "1000", "123456789"}[r.Intn(4)]
+	if r.Bool(g.prof.ModDepositP) {
+		op.Target = "mod:" + pickStr(r, []string{"warp", "cctp", "hyperlane", "fiat-tokenfactory", "transfer"})
+		return op
+	}
 	if op.Denom == DenomStake && r.Intn(2) == 0 {
 		op.Amt = []string{"51000", "60000", "200000"}[r.Intn(3)]
 	}
